@@ -125,6 +125,7 @@ def consumeBalancedTokens (fuel : Nat) (init : List CTok) : M (List CTok) := do
         if tok.type != expected then
           -- hack: assume `<`/`>` are doing math
           if tok.type != ">" && expected != ">" then raiseParseError (some tok) expected
+          else if tok.type = ">" then pure (.inl (consumed, expected :: stack))
           else
             match findIdx tok.type stack with
             | some i =>
